@@ -47,6 +47,26 @@ PROPS = {
         assumptions=_ASSUME_B + ["a panicking Close() is outside the property's fault model (resolver, accessor, reader failure, cancellation) and is not injected",
                                  "resolver errors for google/protobuf/* are masked by WithStandardImports and failures inside the descriptor.proto probe are ignored by design; both count as masked"],
     ),
+    "C08": dict(
+        level="exploration", components="compile",
+        parts=[dict(test="TestC08", engine="B", quick_checks=600, thorough_checks=30000)],
+        thorough_timeout=7200,
+        rule="a case = generated multi-file workload carrying 0-12 independent reportable errors (unresolvable types, duplicate field "
+             "numbers, bad defaults, symbol/extension collisions, cycles, syntax errors) and unused-import warnings x reporter policy "
+             "(abort at its k-th error, k=1..8, or never) x MaxParallelism in {1,2,4} x scheduler tape; distinct = distinct (workload, "
+             "policy, trace hash); non-trivial = at least one error reached the reporter",
+        assumptions=_ASSUME_B + ["the reporter stub cannot park (the handler holds its mutex around the callback), so reporter calls are atomic steps in engine B"],
+    ),
+    "C09": dict(
+        test="TestC09", engine="B", level="exploration", components="compile",
+        quick_checks=500, thorough_checks=30000, thorough_timeout=7200,
+        rule="a case = valid generated workload x per-file input form (source / AST / parser.Result / unlinked FileDescriptorProto) for "
+             "one or two concurrent Compile clients sharing the same supplied objects x SourceInfoMode in {none, standard, extra "
+             "comments, +option locations} x MaxParallelism x scheduler tape; distinct = distinct (workload, forms, trace hash); "
+             "non-trivial = at least one file is supplied in a non-source form",
+        assumptions=_ASSUME_B + ["source info is compared only for files whose supplied form carries an AST",
+                                 "mutation of supplied objects is decided by before/after deterministic encodings (ASTs are not snapshotted)"],
+    ),
 }
 
 _PURE = "pure function of its input (no schedule, clock, fault or interleaving can change the answer): not a deterministic-simulation target; see DESIGN.md section 4"
@@ -58,9 +78,25 @@ NOT_APPLICABLE = {
     "C39": _PURE, "C40": _PURE + " (histories over a single-threaded structure are just inputs; nothing to inject)", "C41": _PURE,
 }
 _P = "simulation applies (DESIGN.md section 3) but the check is still under construction in this round; not claimed until it runs"
-PENDING = {k: _P for k in ["C08", "C09", "C16", "C17", "C33", "C34", "C35", "C36", "C38"]}
+PENDING = {k: _P for k in ["C16", "C17", "C33", "C34", "C35", "C36", "C38"]}
 
 MANIFEST_TEXT = {
+    "C08": dict(
+        technique="deterministic simulation: reporter policies (abort at k / never) as injected faults x seeded schedules (engine B)",
+        design_ref="DESIGN.md 3.4",
+        level_text="Seeded exploration of interleavings of tasks reporting errors through sub-handlers, crossed with reporter "
+                   "abort policies; oracle: no error reaches the reporter after it aborted, Compile returns that very error, "
+                   "accept-all with >=1 error gives ErrInvalidSource, warnings never fail, success implies zero reported errors.",
+        level_note="Trusted: harness scheduler; the reporter stub. Mutual exclusion of reporter calls is not observable in engine B (serialised).",
+    ),
+    "C09": dict(
+        technique="deterministic simulation: concurrent Compile clients sharing resolver-supplied objects under seeded schedules (engine B), all-source reference as oracle",
+        design_ref="DESIGN.md 3.5",
+        level_text="Seeded exploration over per-file input-form assignments and interleavings of two compilations that share the "
+                   "same supplied ASTs, parse results and descriptor protos; oracle: descriptors equal the all-source reference "
+                   "and every supplied object encodes byte-identically before and after.",
+        level_note="Trusted: harness scheduler; reference compile. Races on shared objects are not visible to engine B; a missing defensive copy shows as a changed snapshot.",
+    ),
     "C07": dict(
         technique="deterministic simulation with fault injection: seeded fault plans on the Resolver/io.Reader/context seams x seeded schedules (engine B)",
         design_ref="DESIGN.md 3.3",
